@@ -17,8 +17,12 @@ ones this reading was written for.
 | `CiscoConfParse._find_line_OBJ`: `re.compile(linespec)` / `re.compile("^(?:%s)$" % linespec)`, then `.search` | `exactmatch` = `fullmatch` on a line without line breaks |
 
 `<dynamic>` marks a pattern that is not a constant of the source (the caller's regex); `%-template` marks the constant
-frame of a `"…" % x` expression.  `rxScan…` are *scan lists*: every regex call and literal `str` separator of the
-function, distinct, in order of first appearance, as `(callee, text, flags / replacement)`.
+frame of a `"…" % x` expression.  `rx…` are *scan sets* (`harness/rxscan.py`, `scan_closure`): for the named entry point and every helper of the same
+source file it reaches, every regex call (with flags; a compiled pattern's method is reported as the `re.` function
+with the pattern's text), literal `str` separator, as a sorted duplicate-free list of
+`(what, text, flags or detail)`.  So a regex call that is added to, or removed from, the modelled code breaks the
+obligation as well, while moving a test into a helper method, re-ordering tests, negating one (`!=` is reported as
+`==`, `not in` as `in`), hoisting a pattern into a compiled constant or renaming a constant / local variable does not.
 -/
 namespace Ccp.RxC04
 
@@ -26,21 +30,16 @@ namespace Ccp.RxC04
 source for which the model contains a hand-written scanner has the text that scanner was written for.  (The goals
 are named `regexes_as_modelled__<definition>`, so that a failing build names the constant that was edited.) -/
 theorem regexes_as_modelled :
-    Gen.rxScanSpaceTolerant =
-      [("re.sub", "\\s+", "repl=<dynamic>")] ∧
-    Gen.rxSpaceTolerantReplacement =
-      "\\\\s+" ∧
-    Gen.rxSpaceTolerantVia =
-      "translate" ∧
-    Gen.rxScanEscapeLinespec =
+    Gen.rxSpaceTolerant =
+      [("re.sub", "\\s+", "repl=\\\\s+ via str.translate")] ∧
+    Gen.rxEscapeLinespec =
       [("re.sub", "\\\\(\\s)", "repl=\\1")] ∧
-    Gen.rxScanFindLineObj =
+    Gen.rxFindLineObj =
       [("re.compile", "<dynamic>", ""),
        ("re.compile", "^(?:%s)$", "%-template"),
-       ("<local pattern>.search", "<dynamic>", "")] := by
-  refine ⟨?regexes_as_modelled__rxScanSpaceTolerant, ?regexes_as_modelled__rxSpaceTolerantReplacement,
-    ?regexes_as_modelled__rxSpaceTolerantVia, ?regexes_as_modelled__rxScanEscapeLinespec,
-    ?regexes_as_modelled__rxScanFindLineObj⟩
+       ("re.search", "<dynamic>", "")] := by
+  refine ⟨?regexes_as_modelled__rxSpaceTolerant, ?regexes_as_modelled__rxEscapeLinespec,
+    ?regexes_as_modelled__rxFindLineObj⟩
   all_goals rfl
 
 end Ccp.RxC04
